@@ -9,6 +9,10 @@ def is_any_dimension(factor: Expr) -> bool:
     absorbing nature.
     """
 
+    # NOTE: a floating-point zero is not equal to `S.Zero` in SymPy
+    if getattr(factor, "is_Float", False) and factor.is_zero:
+        return True
+
     return factor in (S.Zero, S.Infinity, S.NegativeInfinity, S.NaN)
 
 
